@@ -539,7 +539,7 @@ def run(ctx):
     for fname, rec in common.load_corpus('C12'):
         ctx.count('corpus')
         replay(ctx, rec)
-    nlib = ctx.n(60, 1500)
+    nlib = ctx.n(200, 3000)
     for i in range(nlib):
         k = rng.choice([1, 1, 2, 3, 4])
         names = rng.sample(GROUP_NAMES, k)
@@ -550,7 +550,7 @@ def run(ctx):
         check_library(ctx, rng, names, datas, ctx.n(4, 6), batch)
         if ctx.time_left() < 120:
             break
-    fault_cases(ctx, rng, ctx.n(120, 3000), batch)
+    fault_cases(ctx, rng, ctx.n(400, 6000), batch)
     zero_cases(ctx, rng, batch)
     compare_batch(ctx, batch)
     ctx.assumption('A-yaml', True, '%d generated documents parsed to the generated trees' % ctx.stats['files_written'])
